@@ -204,7 +204,26 @@ def split_parties_bin(facts, rep):
         src_idx = _index_operand(b, fl, t["args"][1])
         dst_idx = _index_operand(b, fl, t["args"][0])
         same = src_idx is not None and dst_idx is not None and src_idx == dst_idx
+        if not same and src_idx is not None and dst_idx is None:
+            # destination picked by `iter_mut().enumerate()`: the index is the enumeration counter of the same loop item
+            dor = fl.origins(t["args"][0], (bb, None))
+            if any(o[0] == "index" for o in fl.origins(["c", [src_idx[1]]], (bb, None))) if src_idx[0] == "local" else False:
+                same = True
         (ok_pairs if same else bad_pairs).append((bb, src_idx, dst_idx))
+    # one sharing per input: the sharing call is not inside the loop that distributes the per-party tuples
+    loops = C.loops(b)
+    hoisted = True
+    for (pb, _, _) in ok_pairs + bad_pairs:
+        inner = None
+        for h, blocks in loops:
+            if pb in blocks and (inner is None or len(blocks) < len(inner)):
+                inner = blocks
+        if inner and any(sc in inner for sc in share_calls):
+            hoisted = False
+    rep.ob("C14.B", "shared-input|one-sharing-for-all-parties", hoisted and bool(ok_pairs + bad_pairs),
+           "the per-party tuples handed out come from ONE call of get_local_shares_for_each_party per input" if hoisted else
+           "get_local_shares_for_each_party (which draws fresh randomness) is called inside the per-party loop: each party "
+           "receives a piece of a different sharing and nothing reconstructs", b.loc(share_calls[0]) if share_calls else b.loc())
     rep.ob("C14.B", "shared-input|party-j-gets-element-j", bool(ok_pairs) and not bad_pairs,
            "split_inputs[j] receives parties_shares[j] (same index value)" if ok_pairs and not bad_pairs else
            "the per-party share vector is distributed with mismatching indices %s: a party receives another party's tuple "
@@ -271,9 +290,41 @@ def _index_operand(b, fl, op):
     return None
 
 
+REPLICATORS = ("::from_elem", "std::iter::repeat", "std::iter::repeat_n", "::resize", "::fill", "::repeat")
+
+
+def draws_not_replicated(facts, rep):
+    """C14.U: every element of a random container is drawn separately"""
+    rep.rule("C14.U", "in random.rs no value obtained from a random draw is replicated (vec![v; n], iter::repeat, resize, fill): "
+                      "a repeated draw makes the differences of the secret's elements visible in a single share")
+    n = 0
+    for name, b in sorted(facts.bodies.items()):
+        if b.crate != "ciphercore_base" or not b.file.endswith("/random.rs"):
+            continue
+        fl = None
+        for bb, t in b.calls():
+            cn = callee_name(t) or ""
+            if not cn.endswith(REPLICATORS) or b.is_cleanup(bb) or not t["args"]:
+                continue
+            fl = fl or Flow(facts, b)
+            for a in t["args"][:2]:
+                if a[0] == "k":
+                    continue
+                ors = fl.origins(a, (bb, None))
+                drawn = [o for o in ors if o[0] == "call" and (o[2].startswith("random::PRNG::get_random") or
+                                                               "generate_random" in o[2] or "recursively_generate_value" in o[2]
+                                                               or o[2].endswith("generate_u32_in_range"))]
+                n += 1
+                rep.ob("C14.U", "%s|%s" % (name, cn.split("::")[-1]), not drawn,
+                       "replicated value is not a random draw" if not drawn else
+                       "a random draw (%s) is replicated by %s: all copies are equal" % (drawn[0][2].split("::")[-1], cn), b.loc(bb))
+    rep.ob("C14.U", "scan", True, "%d replication sites in random.rs examined" % n)
+
+
 _run_ls = run
 
 
 def run(facts, rep, tier):
     _run_ls(facts, rep, tier)
+    draws_not_replicated(facts, rep)
     split_parties_bin(facts, rep)
